@@ -108,7 +108,9 @@ class DNSServer(Service, discriminator="dns-server"):
 
         # cast payload into a DNS packet
         payload: DNSPacket = payload
-        if payload.dns_request is not None:
+        # a reply still carries the request it answers: only a packet without a reply is a request (a server whose own
+        # host uses it as resolver receives its own replies, and answering those would never end)
+        if payload.dns_request is not None and payload.dns_reply is None:
             self.sys_log.info(
                 f"{self.name}: Received domain lookup request for {payload.dns_request.domain_name_request} "
                 f"from session {session_id}"
